@@ -126,6 +126,23 @@ class Engine:
             yield "random", self.gen.multiset()
         for _ in range(n_random if n_records is None else n_records):
             yield "records", self.gen.record_multiset()
+        # containers whose elements all have ONE runtime class but different types: class objects (`[int, str]` is
+        # List[Union[Type[int], Type[str]]]), and same-kind containers of different contents
+        rng = self.chk.rng
+        for _ in range(max(20, n_random // 10)):
+            n = rng.choice([2, 2, 3, 4])
+            if rng.random() < 0.7:
+                elems = [("classObj", c) for c in rng.sample(self.gen.classobjs, n)]
+            else:
+                kind = rng.choice(["list", "tuple"])
+                elems = [(kind,) + tuple(self.gen.atom(True) for _ in range(rng.choice([1, 1, 2]))) for _ in range(n)]
+            hashable = all(e[0] in ("classObj", "tuple") for e in elems)
+            shape_ = rng.choice(["list", "tuple", "dictvals", "ddictvals"] + (["set"] if hashable else []))
+            if shape_ in ("list", "tuple", "set"):
+                v = (shape_,) + tuple(elems)
+            else:
+                v = ("dict" if shape_ == "dictvals" else "ddict",) + tuple((("inst", values.INT) if i else ("inst", values.NONE), e) for i, e in enumerate(elems[:2]))
+            yield "same_class_elems", [v] if rng.random() < 0.6 else [v, self.gen.value(2)]
         # dict-heavy stream around each k (C06): 0..12 keys
         for _ in range(n_random // 3 if n_dicts is None else n_dicts):
             n = self.chk.rng.choice([0, 1, 1, 2, 2, 3, 3, 3, 4, 4, 5, 6, 7, 9, 10, 11, 12])
